@@ -282,6 +282,9 @@ pub fn par_for_budget<F: Fn(u64) + Sync>(ctx: &Ctx, n: u64, chunk: u64, f: F) ->
     par_for_watch(ctx, n, chunk, &|i| json!({"index": i}), f)
 }
 
+/// set when a harness worker thread itself panicked (a bug of the machinery, never a verdict)
+pub static HARNESS_PANIC: AtomicBool = AtomicBool::new(false);
+
 /// seconds after which a single case that has not returned is reported as a hang
 pub const HANG_SECS: u64 = 60;
 
@@ -345,7 +348,9 @@ pub fn par_for_watch<F: Fn(u64) + Sync>(ctx: &Ctx, n: u64, chunk: u64, describe:
             }
         });
         for w in workers {
-            let _ = w.join();
+            if w.join().is_err() {
+                HARNESS_PANIC.store(true, Ordering::Relaxed);
+            }
         }
         finished.store(true, Ordering::Relaxed);
     });
@@ -587,6 +592,10 @@ pub fn finish(ctx: &Ctx, col: &Collector, fin: Finish) -> i32 {
     );
     if let Some(m) = machinery {
         println!("MACHINERY-ERROR: {}", m);
+        return 2;
+    }
+    if HARNESS_PANIC.load(Ordering::Relaxed) {
+        println!("MACHINERY-ERROR: a harness worker thread panicked (see stderr); coverage is incomplete");
         return 2;
     }
     if violations > 0 {
